@@ -22,39 +22,47 @@ outputs of the modelled sub-algorithms. Discharged clauses and their sources:
 * `rho`           ← `UsesRho64`:        C16 `rho64_proper` (Model/ExpModn.lean `rho64`);
 * `pm1q`, `pm1`   ← `UsesPm1`:          C16 `check_gcd_factors_inv`, `gcd_factors_prod`,
                      `pm1_result_proper` along `Pm1Reach` (states reachable by `pm1_impl`);
-* `ecmauto`, `ecm`, `ecm128` ← `UsesEcmExits`: C16 `guard_proper`, `check_gcd_factor_proper`.
+* `ecmauto`, `ecm`, `ecm128` ← `UsesEcmExits`: C16 `guard_proper`, `check_gcd_factor_proper`;
+* `squfof`        ← `UsesSqufofExit`:   the two exits of squfof.rs (square; gcd with `p_prev`);
+* `sieveUnexpected` ← `UsesUnexpectedFactor` (fbase.rs `check_divisors`: a prime divisor of `n`)
+                     + `ResidualOK`.
 STILL ASSUMED:
-* `ResidualOK o`: the `squfof` clause (squfof.rs guards `f > 1` only) and the
-  `sieveUnexpected` clause (`d < n`);
+* `ResidualOK o`: an `UnexpectedFactor(d)` is not the sieved number itself (`d ≠ n`; sufficient:
+  `n` is not prime — `unexpected_ne_of_composite` — or `d < B ≤ n` — `unexpected_ne_of_size`);
+* inside `UsesSqufofExit`: the named fact `0 < p_prev < n` at the final gcd (premise of
+  `SqufofExit.gcd`; squfof.rs guards `f > 1` only). `squfof_pprev_lt` derives it from
+  `p_prev ≤ 2·isqrt(k·n)`, `k ≤ 50`, for every `n ≥ 201`;
 * inside `UsesPm1`: the premise `n ∉ f2` of `Pm1Reach.polyeval` — the stage-2 polynomial path
   of `pm1_impl` (pollard_pm1.rs:356-365) appends the output of `gcd_factors` without the
   `fs.contains(n)` guard, so "no listed part equals `n`" is not provided by the code there;
 * `prime` and `abort` stay arbitrary (no clause). -/
 theorem oracleOK_of_models (o : Oracle σ) (hpp : UsesPerfectPower o) (hfs : UsesFinalStep o)
     (hqs : UsesQs64 o) (hrho : UsesRho64 o) (hpm1 : UsesPm1 o) (hecm : UsesEcmExits o)
-    (hres : ResidualOK o) : OracleOK o :=
-  oracleOK_of_models_aux hpp hfs hqs hrho hpm1 hecm hres
+    (hsq : UsesSqufofExit o) (hun : UsesUnexpectedFactor o) (hres : ResidualOK o) : OracleOK o :=
+  oracleOK_of_models_aux hpp hfs hqs hrho hpm1 hecm hsq hun hres
 
 /-- **`factor_exact_closed`**: `factor_exact` for oracles that are the models (hypotheses and what
 is still assumed: see `oracleOK_of_models`): a returned list multiplies to exactly `n`, is
 sorted, every element divides `n` and is `≥ 2` (for `n ≥ 1`). -/
 theorem factor_exact_closed (o : Oracle σ) (hpp : UsesPerfectPower o) (hfs : UsesFinalStep o)
     (hqs : UsesQs64 o) (hrho : UsesRho64 o) (hpm1 : UsesPm1 o) (hecm : UsesEcmExits o)
-    (hres : ResidualOK o) (fuel n : Nat) (alg : Algo) (os : σ) (l : List Nat)
+    (hsq : UsesSqufofExit o) (hun : UsesUnexpectedFactor o) (hres : ResidualOK o)
+    (fuel n : Nat) (alg : Algo) (os : σ) (l : List Nat)
     (h : factor o fuel n alg os = .ok l) :
     l.prod = n ∧ l.Pairwise (· ≤ ·) ∧ ∀ x ∈ l, x ∣ n ∧ (1 ≤ n → 2 ≤ x) :=
-  factor_exact o (oracleOK_of_models o hpp hfs hqs hrho hpm1 hecm hres) fuel n alg os l h
+  factor_exact o (oracleOK_of_models o hpp hfs hqs hrho hpm1 hecm hsq hun hres) fuel n alg os l h
 
 /-- **`factor_total_closed`**: `C03.factor_total` for oracles that are the models: selector
 precondition met and enough fuel (both on the trial-divided value) ⟹ a list with product `n` or the declared failure; no
 panic site of lib.rs, recursion depth `≤ bits n`. -/
 theorem factor_total_closed (o : Oracle σ) (hpp : UsesPerfectPower o) (hfs : UsesFinalStep o)
     (hqs : UsesQs64 o) (hrho : UsesRho64 o) (hpm1 : UsesPm1 o) (hecm : UsesEcmExits o)
-    (hres : ResidualOK o) (fuel n : Nat) (alg : Algo) (os : σ)
+    (hsq : UsesSqufofExit o) (hun : UsesUnexpectedFactor o) (hres : ResidualOK o)
+    (fuel n : Nat) (alg : Algo) (os : σ)
     (hsel : SelectorPre alg (trialDivideBy 1100 Ymq.Gen.Primality.smallPrimes n []).1)
     (hfuel : bits (trialDivideBy 1100 Ymq.Gen.Primality.smallPrimes n []).1 ≤ fuel) :
     (∃ l, factor o fuel n alg os = .ok l ∧ l.prod = n) ∨ factor o fuel n alg os = .failure :=
-  Ymq.C03.factor_total o (oracleOK_of_models o hpp hfs hqs hrho hpm1 hecm hres) fuel n alg os
+  Ymq.C03.factor_total o (oracleOK_of_models o hpp hfs hqs hrho hpm1 hecm hsq hun hres) fuel n alg os
     hsel hfuel
 
 /-! ### non-vacuity: an oracle assembled from the actual model functions -/
@@ -65,7 +73,7 @@ open Ymq.Factor.Closed
 (on two relations modulo 15); it satisfies every hypothesis -/
 example : OracleOK modelOracle :=
   oracleOK_of_models modelOracle model_pp model_finalStep model_qs64 model_rho model_pm1 model_ecm
-    model_residual
+    model_squfof model_unexpected model_residual
 
 /-- the modelled `final_step` splits 15 inside `factor_impl` (selector Siqs) -/
 example : factorImpl modelOracle 5 15 .siqs (initSt () []) =
@@ -77,12 +85,12 @@ example : factor modelOracle 20 188212 .rho () = .ok [2, 2, 211, 223] := by deci
 example : [2, 2, 211, 223].prod = 188212 ∧ [2, 2, 211, 223].Pairwise (· ≤ ·) ∧
     ∀ x ∈ [2, 2, 211, 223], x ∣ 188212 ∧ (1 ≤ 188212 → 2 ≤ x) :=
   factor_exact_closed modelOracle model_pp model_finalStep model_qs64 model_rho model_pm1
-    model_ecm model_residual 20 188212 .rho () _ (by decide +kernel)
+    model_ecm model_squfof model_unexpected model_residual 20 188212 .rho () _ (by decide +kernel)
 
 example : (∃ l, factor modelOracle 20 188212 .rho () = .ok l ∧ l.prod = 188212) ∨
     factor modelOracle 20 188212 .rho () = .failure :=
   factor_total_closed modelOracle model_pp model_finalStep model_qs64 model_rho model_pm1
-    model_ecm model_residual 20 188212 .rho () (fun _ => by decide +kernel) (by decide +kernel)
+    model_ecm model_squfof model_unexpected model_residual 20 188212 .rho () (fun _ => by decide +kernel) (by decide +kernel)
 
 /-- the modelled `perfect_power` drives the perfect-power branch: 211² -/
 example : factor modelOracle 20 (211 * 211) .rho () = .ok [211, 211] := by decide +kernel
@@ -103,5 +111,10 @@ example : Pm1Reach 15 (fun _ => true) { factors := [3], nred := 5, vals := [1, 3
     rcases this with rfl | rfl <;> decide
 
 example : EcmExit 15 3 5 := EcmExit.guard 3 (by decide)
+
+/-- the SQUFOF gcd exit from the size bound: n = 211·223, k = 1, p_prev = 223 ≤ 2·⌊√n⌋ = 432 -/
+example : SqufofExit 47053 223 211 :=
+  SqufofExit.gcd_of_bound (k := 1) (x := 223) (by decide) (by decide) (by decide)
+    (by decide +kernel) (by decide) (by decide) (by decide)
 
 end Ymq.C01
